@@ -149,8 +149,8 @@ pub fn random_match_on(rng: &mut Rng) -> Option<Value> {
             let mut m = vec![];
             // sources that are prefixes of one another with the separator a key encoding might use; ids that
             // agree modulo 2^32 or are extreme: neighbouring keys of any (source, id) cache
-            for s in ["s", "t", "s-", "S"] {
-                if rng.chance(if s == "s-" || s == "S" { 1 } else { 2 }, 3) {
+            for s in ["s", "t", "s-", "S", ""] {
+                if rng.chance(if s == "s-" || s == "S" || s.is_empty() { 1 } else { 2 }, 3) {
                     let k = rng.below(3);
                     let ids: Vec<i64> = (0..k).map(|_| *rng.pick(&[1i64, 2, -1, -2, 0, 1, 2, -1, 4294967297, -4294967297, i64::MAX, i64::MIN])).collect();
                     m.push(json!([s, ids]));
@@ -286,7 +286,7 @@ pub fn random_event(rng: &mut Rng, missing: (u64, u64)) -> DynEvent {
         }
     }
     DynEvent {
-        source: rng.pick(&["s", "s", "s", "t", "u", "s-", "S", "T"]).to_string(),
+        source: rng.pick(&["s", "s", "s", "t", "u", "s-", "S", "T", ""]).to_string(),
         id: *rng.pick(&[1i64, 1, 1, 2, 2, 0, -1, -1, 4294967297, 4294967298, -4294967295, i64::MAX, i64::MIN]),
         fields,
     }
